@@ -135,6 +135,8 @@ func checkC10(e *Env) {
 	// COPYLEN: no tolerant copy of input bytes (shared rule, copylen.go)
 	copiesAreExact(e, 1, "")
 	scope := parserScope(e, parserEntries)
+	// TAILIDX: bounds counted from the end are guarded (tailidx.go)
+	tailBoundsGuarded(e, 1, scope)
 	e.R.Counts["scope_functions"] = len(scope)
 	runUntrusted(e, scope, func(f *ssa.Function) bool { return !inDeterministic(f) }, nil)
 	searchIndexGuarded(e, scope)
